@@ -189,6 +189,20 @@ func VerifH20b() {
 func VerifH20c() {
 	D := 1 + vChoose(vParam("DIGITS", 22))
 	digits := nondetBytes(D)
+	if vParam("LONG", 0) == 1 {
+		// indices of 19..22 digits (around and beyond 2^63 and 2^64): the leading
+		// digits are the solver's choice between all zeros and all nines, the last
+		// three are symbolic
+		D = 19 + vChoose(4)
+		digits = nondetBytes(D)
+		lead := byte('0')
+		if nondetBool() {
+			lead = '9'
+		}
+		for k := 0; k < D-3; k++ {
+			digits[k] = lead
+		}
+	}
 	v := 0
 	big := false
 	for k := 0; k < D; k++ {
